@@ -18,6 +18,29 @@ CLAIMED = {
             "float midpoints compared to the exact rational midpoint at 2^-40.",
             "Lean 4 proof (induction on the axis and on the number of refinements) + differential correspondence check",
             "DESIGN.md §4 C13"),
+    "C05": ("Lean 4 theorems about a model of the bookkeeping of Engine.price / price_with_constant_mc_paths_and_level and of the "
+            "zero-padded per-level sample arrays: for every scripted process, every oracle history (optimal sizes, convergence "
+            "verdicts, level additions) and every initial configuration, whenever results are read each level's array is exactly the "
+            "samples simulated at that level in simulation order (no placeholder counted, nothing dropped, duplicated or overwritten), "
+            "N_l is their number, the price is the sum of per-level means over them and the level-0 coarse payoff is 0; negation "
+            "witness for the pre-fix counter. Tied to /repo by running the real engine with a scripted coupling process and a scripted "
+            "public ConvergenceCriteria on the same histories (rows compared exactly, statistics at 2^-40) plus an oracle that compares "
+            "the arrays with the process's own simulation log.",
+            "numpy/scipy moment kernels compared, not proved; single process (multi-process order is C08); control-variate arrays not modelled.",
+            "Lean 4 proof (loop invariant by induction over the oracle history) + differential correspondence on scripted engine runs",
+            "DESIGN.md §4 C05"),
+    "C06": ("Lean 4 theorems: (i) over the reals, for non-negative variances and strictly positive costs the Giles allocation as coded "
+            "gives sum V_l/N_l <= (1-theta) rmse^2 and N_l >= 1 where V_l > 0 (plus a field-generic version with root certificates and a "
+            "witness that a zero-cost level breaks it); (ii) the budget split bias share + variance share <= 1 as a proof obligation over "
+            "constants measured on the running code and regenerated before every build; (iii) on the loop model of C05: never a level "
+            "above the maximum, and every return is either the stated one (1% rule met and (bias test passed or maximum level)) or the "
+            "fall-through exit, with a witness that the latter is reachable. Correspondence: compute_mc_paths_giles / criteria_giles vs "
+            "the model's executable definitions (exact integers on dyadic roots), real engine runs vs the loop model; oracles evaluate "
+            "the budget, the level bound and the return reason on the implementation.",
+            "Float sqrt/ceil not modelled (ceil boundaries excluded); regression of the rates is an oracle input; the iteration bound under bounded "
+            "sizes is not proved; two recorded findings (zero-cost level, fall-through exit).",
+            "Lean 4 proof (real analysis with Real.sqrt + loop invariants) + behaviour-derived generated obligation + differential correspondence",
+            "DESIGN.md §4 C06"),
 }
 
 NOT_YET = "check not built yet in this session (planned: DESIGN.md §4); not claimed until its Lean model, theorems and correspondence exist"
